@@ -380,7 +380,14 @@ def c05_state(ctx):
     state_discipline(ctx, ('bespokeasm.assembler.memory_zone', 'bespokeasm.assembler.line_object.directive_line', 'bespokeasm.assembler.assembly_file', 'bespokeasm.assembler.line_object.preprocessor_line.create_memzone'))
 
 
-RULES = [c05_predefined, c05_1, c05_2, c05_3, c05_4, c05_5, zone_provenance, c05_state]
+def c05_same_line(ctx):
+    """Code assigned to a zone by a directive on the same line belongs to that zone (C18.3's same-line rule)."""
+    ctx.rule('C05.8', 'a zone directive applies to the statements after it on its own line', 1)
+    from rules.c18 import same_line_zone
+    same_line_zone(ctx)
+
+
+RULES = [c05_predefined, c05_1, c05_2, c05_3, c05_4, c05_5, zone_provenance, c05_state, c05_same_line]
 
 # ---------------------------------------------------------------------- self-test variants
 from engine.selftest import V  # noqa: E402
